@@ -156,6 +156,25 @@ theorem calc_ext_is_fold_max (mx mn : List α) (cases : List L) (c : Cur α Unit
 
 end calcext
 
+section stat
+variable {α : Type} [Field α] [CharZero α]
+
+/-- `calc_stat_ext` sanity (the definition `mean ± k·std(ddof=1)` is the model itself): with `k = 0`
+the statistical extreme is the mean of the per-case columns, and when every case has the same
+maximum `c` and the same minimum `d` it is `(c, d)` for every `k` (zero spread). -/
+theorem stat_ext_sanity (sqrt : α → α) (h0 : sqrt 0 = 0) (k : α) (mx mn : List α) (n : Nat)
+    (hn : n ≠ 0) (c d : α) :
+    statExtRow sqrt 0 mx mn = (mean mx, mean mn) ∧
+    statExtRow sqrt k (List.replicate n c) (List.replicate n d) = (c, d) := by
+  constructor
+  · simp [statExtRow]
+  · have hz : ∀ e : α, std1 sqrt (List.replicate n e) = 0 := by
+      intro e
+      simp [std1, mean_replicate n hn, List.sum_replicate, h0]
+    simp [statExtRow, mean_replicate n hn, hz]
+
+end stat
+
 /-! ### non-vacuity -/
 
 /-- `frf_recovery_is_abs_extreme`: two cases with a tie accepted by the pipeline -/
